@@ -1647,6 +1647,17 @@ class Evaluator:
                     and len(base.items) == 1 and isinstance(n.func.value, ast.Name):
                 env[n.func.value.id] = Tup((), 'set')
                 return base.items[0]
+            if isinstance(base, (App, Ite)) and isinstance(n.func.value, ast.Name) and n.func.attr in ('update', 'pop') \
+                    and not (isinstance(base, App) and (base.name.startswith('astropy.') or base.name in ('copy',))) \
+                    and not (isinstance(base, Ite) and any(isinstance(x, (DictV, Tup, Obj)) for x in (base.a, base.b))):
+                # an opaque mapping held in a local name (the result of an external call): keep the order of what is
+                # done to it — X.update(Y) / X.pop(k) rebind X to a term recording the operation
+                if n.func.attr == 'update' and len(args) == 1 and not kwargs:
+                    env[n.func.value.id] = App('dict.updated', (base, args[0]))
+                    return Const(None)
+                if n.func.attr == 'pop' and args:
+                    env[n.func.value.id] = App('dict.without', (base, args[0]))
+                    return App('lookup', (Tup((base,)), args[0], args[1] if len(args) > 1 else Const(None)))
             if isinstance(base, Tup) and base.kind == 'list' and isinstance(n.func.value, ast.Attribute) \
                     and n.func.attr in ('append', 'extend', 'insert'):
                 # obj.attr.append(x) / extend(xs) / insert(i, x) on a list held in an object field: rebind the field
